@@ -192,13 +192,26 @@ def forward(rng, n, out):
         stats["floats"] += sum(1 for s_ in sympy.preorder_traversal(t) if isinstance(s_, sympy.Float))
         stats["user_functions"] += sum(1 for s_ in sympy.preorder_traversal(t) if str(type(s_)) in ("f", "g", "h"))
         pts = [{k: float(rng.uniform(0.2, 1.5)) for k in SYMS} for _ in range(3)]
-        symbols = {}
+        mine = {}          # the caller's (still empty) table: must be the one that is filled and returned
+        symbols = mine
         try:
             with contextlib.redirect_stdout(io.StringIO()):
-                e, symbols = sympy_to_casadi(t, f_dict=dict(UFUN_CA), symbols=symbols)
+                e, symbols = sympy_to_casadi(t, f_dict=dict(UFUN_CA), symbols=mine)
             real_ok = True
         except NotImplementedError:
             real_ok = False
+        if real_ok:
+            again_same = True
+            try:
+                with contextlib.redirect_stdout(io.StringIO()):
+                    e2, _ = sympy_to_casadi(t, f_dict=dict(UFUN_CA), symbols=mine)
+                v1 = {str(v_): v_ for v_ in ca.symvar(ca.SX(e))}; v2 = {str(v_): v_ for v_ in ca.symvar(ca.SX(e2))}
+                again_same = all(k_ in v2 and ca.is_equal(v1[k_], v2[k_]) for k_ in v1)
+            except NotImplementedError:
+                pass
+            if symbols is not mine or set(mine.keys()) != set(symbols.keys()) or not again_same:
+                out["failures"].append({"unit": "sympy_to_casadi", "class": "symbol_table", "input": {"expr": str(t)}, "expected": "the caller's table is filled and a second conversion with it reuses the same variables", "observed": {"returned_is_callers": symbols is mine, "callers_keys": sorted(mine.keys()), "returned_keys": sorted(symbols.keys()), "second_call_same_variables": again_same}, "what": "the same symbol name maps to different variables across conversions sharing one table"})
+                continue
         model_ok = code != [-1]
         if not real_ok:
             stats["raises"] += 1
